@@ -96,8 +96,41 @@ def composition_case(case):
             out.append(("final", s, (pr[1] - pr[0]) + 1000 * math.log(len(prod) / len(txt))))
             return s
     list(qa.CTP.ctparse_gen(text, ts, timeout=0, scorer=Spy()))
+    # the same partial parse scored by TWO different models (e.g. comparing a retrained model with the shipped one on shared
+    # candidates): each score must be THAT model's log-odds + the length term
+    other = _other_scorer()
+
+    class Two(qa.Scorer):
+        def score(self, txt, ts_, pp):
+            return shipped.score(txt, ts_, pp)
+
+        def score_final(self, txt, ts_, pp, prod):
+            s = other.score_final(txt, ts_, pp, prod)
+            pr = other._model.predict_log_proba([[str(r) for r in pp.rules]])[0]
+            out.append(("final-other-model", s, (pr[1] - pr[0]) + 1000 * math.log(len(prod) / len(txt))))
+            s2 = other.score(txt, ts_, pp)
+            cov = pp.prod[-1].mend - pp.prod[0].mstart
+            out.append(("score-other-model", s2, (pr[1] - pr[0]) + math.log(cov / len(txt))))
+            return s
+    list(qa.CTP.ctparse_gen(text, ts, timeout=0, scorer=Two()))
     bad = [(k, a, b) for k, a, b in out if not (math.isfinite(a) and abs(a - b) <= 1e-9 * max(1.0, abs(a)))]
     return {"n": len(out), "bad": bad[:3]}
+
+
+_OTHER = None
+
+
+def _other_scorer():
+    """A second model over rule-trace tokens, trained by the harness (deterministic)."""
+    global _OTHER
+    if _OTHER is None:
+        rnd = random.Random(5)
+        names = list(qa.RULES) + [str(i) for i in sorted(qa.REGEX)]
+        X = [[rnd.choice(names) for _ in range(rnd.randint(1, 7))] for _ in range(60)]
+        y = [rnd.random() < 0.5 for _ in X]
+        y[0], y[1] = True, False
+        _OTHER = NaiveBayesScorer(train_naive_bayes(X, y))
+    return _OTHER
 
 
 def run(ctx):
@@ -130,6 +163,15 @@ def run(ctx):
             continue
         q = tuple(rnd.choice(toks + ["unseen"]) for _ in range(rnd.randint(0, 10)))
         cases.append({"docs": docs, "labels": labels, "query": q})
+    # long documents of strongly one-sided tokens: the joint log-likelihoods differ by hundreds of nats (log-sum-exp must not overflow)
+    for k in range(6 if ctx.quick else 40):
+        pos = ["p%d" % i for i in range(rnd.randint(1, 3))]
+        neg = ["n%d" % i for i in range(rnd.randint(1, 3))]
+        docs = tuple(tuple(rnd.choice(pos) for _ in range(rnd.randint(2, 6))) for _ in range(rnd.randint(2, 5))) + \
+            tuple(tuple(rnd.choice(neg) for _ in range(rnd.randint(2, 6))) for _ in range(rnd.randint(2, 5)))
+        labels = tuple(all(t.startswith("p") for t in d) for d in docs)
+        for side in (pos, neg):
+            cases.append({"docs": docs, "labels": labels, "query": tuple(rnd.choice(side) for _ in range(rnd.choice([60, 150, 400])))})
     stats, gen, dist = tlc_stats(cases)
     ctx.states += dist
     ctx.transitions += gen
